@@ -538,6 +538,7 @@ def _run_reads(shape, res, sink):
         ix = u_.read_batch_idx(fn, cols, idx, units=tgt)
         k = max(1, N - 1)
         rnd = u_.read_random_batch(fn, cols, k, units=tgt, rng=rng)
+        S._rnd_full = u_.read_random_batch(fn, cols, N, units=tgt, rng=rng)       # as many as the file holds
         nounits = u_.read_batch_slice(fn, ["P"], slice(0, N))
         # two columns stored in DIFFERENT units and requested in the SAME unit (and one without a requested unit in between)
         same_tgt = {"omega": units.rad, "M0": units.rad}
@@ -561,7 +562,13 @@ def _run_reads(shape, res, sink):
 
             def want(i):
                 return [lib[i][4] * fs, lib[i][0] * fP, lnp[i]]
-            desc = lambda m: {"N": N, "slice": [a, b]}
+            def desc(m):
+                out = {"N": N, "slice": [a, b]}
+                try:
+                    out["idx"] = [int(core.model_value(m, c)) for c in idx.a]
+                except Exception:
+                    pass
+                return out
             ok = isinstance(sl, symnp.SymArray) and sl.a.shape == (b - a, 3)
             cl = [z3.BoolVal(bool(ok))] + ([L(sl.a[r_, c]) == L(want(a + r_)[c]) for r_ in range(b - a) for c in range(3)] if ok else [])
             sink.check(path, "reads.slice", core.SB(z3.And(cl)), site="read_batch_slice", describe=desc, isolated=True)
@@ -583,7 +590,7 @@ def _run_reads(shape, res, sink):
             sink.check(path, "reads.index_array_in_given_order", core.SB(z3.And(cl)), site="read_batch_idx", describe=desc, isolated=True)
             ok = isinstance(rnd, symnp.SymArray) and rnd.a.shape == (k, 3)
             ch = groupa.stream_choices(S.w)
-            okrng = len(ch) == 2 and ch[1][1] == N and ch[1][2] == k          # drawn from the rng argument, without replacement
+            okrng = len(ch) == 3 and ch[1][1] == N and ch[1][2] == k and not ch[1][4]          # drawn from the rng argument, without replacement
             cl = [z3.BoolVal(bool(ok and okrng))]
             if ok and okrng:
                 cidx = ch[1][3]
@@ -591,6 +598,16 @@ def _run_reads(shape, res, sink):
                     for i in range(N):
                         cl.append(z3.Implies(L(cidx[r_]) == i, z3.And([L(rnd.a[r_, c]) == L(want(i)[c]) for c in range(3)])))
             sink.check(path, "reads.random_subset", core.SB(z3.And(cl)), site="read_random_batch", describe=desc, isolated=True)
+            rf = S._rnd_full
+            ok = isinstance(rf, symnp.SymArray) and rf.a.shape == (N, 3) and len(ch) == 3 and ch[2][1] == N and ch[2][2] == N
+            cl = [z3.BoolVal(bool(ok))]
+            if ok:
+                cidx = ch[2][3]
+                cl.append(z3.BoolVal(not ch[2][4]))                            # a subset: drawn without replacement (no row twice), also when it is the whole file
+                for r_ in range(N):
+                    for i in range(N):
+                        cl.append(z3.Implies(L(cidx[r_]) == i, z3.And([L(rf.a[r_, c]) == L(want(i)[c]) for c in range(3)])))
+            sink.check(path, "reads.random_subset_of_full_size", core.SB(z3.And(cl)), site="read_random_batch", describe=desc, isolated=True)
             ok = isinstance(nounits, symnp.SymArray) and nounits.a.shape == (N, 1)
             cl = [z3.BoolVal(bool(ok))] + ([L(nounits.a[i, 0]) == L(lib[i][0]) for i in range(N)] if ok else [])
             sink.check(path, "reads.no_units_requested", core.SB(z3.And(cl)), site="read_batch_slice", describe=desc, isolated=True)
@@ -723,9 +740,18 @@ def replay(cand):
                     got_ = np.asarray(read_batch(fn, cols, (a_, b_), units=tgt))
                     if got_.shape[0] != len(full[a_:b_]):
                         bad.append("read_batch((%r, %r)) returns %d rows, the range selects %d" % (a_, b_, got_.shape[0], len(full[a_:b_])))
-        idx = np.array([5, 0, 3])
-        if not np.allclose(read_batch(fn, cols, idx, units=tgt), full[idx], rtol=1e-13):
-            bad.append("read_batch(index array) does not return the rows in the given order")
+        idxs = [np.array([5, 0, 3]), np.array([0, 2, 1, 3]), np.array([3, 5, 4, 6])]
+        if isinstance(m.get("idx"), list) and m["idx"] and all(0 <= int(i_) < nfull for i_ in m["idx"]):
+            idxs.insert(0, np.array([int(i_) for i_ in m["idx"]]))
+        for idx in idxs:
+            if not np.allclose(read_batch(fn, cols, idx, units=tgt), full[idx], rtol=1e-13):
+                bad.append("read_batch(index array %s) does not return the rows in the given order" % idx.tolist())
+                break
+        for sd in range(6):
+            rbf = read_batch(fn, cols, nfull, units=tgt, rng=np.random.default_rng(sd))
+            if len({tuple(np.round(x, 12)) for x in rbf}) != nfull:
+                bad.append("read_batch(random subset of %d out of %d rows) repeats rows" % (nfull, nfull))
+                break
         rb = read_batch(fn, cols, 5, units=tgt, rng=np.random.default_rng(1))
         rows = [tuple(np.round(x, 12)) for x in rb]
         allrows = [tuple(np.round(x, 12)) for x in full]
